@@ -59,13 +59,6 @@ theorem toTenmat_rowmode [Zero α] (T : Dense α) (_hT : T.WF) (n : Nat) (hn : n
   simp only [Dense.toTenmat, gatherWrapDims]
   simp [hn, hp, hperm]
 
-theorem toTenmat_colmode [Zero α] (T : Dense α) (hT : T.WF) (n : Nat) (hn : n < T.shape.length) :
-    T.toTenmat none (some [n]) none =
-      .ok ⟨T.shape, complDims T.shape.length [n], [n],
-        ⟨[numel (gather T.shape (complDims T.shape.length [n])), numel (gather T.shape [n])],
-          (T.transpose (complDims T.shape.length [n] ++ [n])).data⟩⟩ := by
-  sorry
-
 /-- entry `(a, c)` of the mode-n unfolding with the other modes in increasing order. -/
 theorem unfold_entry [Zero α] (T : Dense α) (n a c : Nat) (hn : n < T.shape.length)
     (ha : a < T.shape.getD n 0) (hc : c < numel (T.shape.eraseIdx n)) :
